@@ -7,7 +7,7 @@ from . import common
 
 ID = 'C13'
 LEVEL = 'exploration'
-BUDGET = {'quick': (5000, 70.0), 'thorough': (200000, 1500.0)}
+BUDGET = {'quick': (40000, 80.0), 'thorough': (500000, 1500.0)}
 RULE = ('one real CA (arbitrary-address-capable or fixed; claiming or bypassed) driven through claim histories by a scripted contender that injects address-claimed '
         'frames with a lower or higher NAME for the address the CA currently announces, at instants before, inside and after the veto window; every send entry point '
         '(send_pgn single / RTS-CTS / BAM, send_message, send_request incl. the claim PGN, Dm22, Dm14Query, Dm1 via its timer) is called at drawn instants. '
